@@ -37,7 +37,18 @@ def htlc_op(sc, spec, mdl, epoch=0):
         op['hash'] = 'own' if same else 'other'
     if spec.tlv_amount is not None:
         op['tlv_amount'] = bytes(int(sym.evaluate(b, mdl)) if isinstance(b, T) else b for b in spec.tlv_amount).hex()
+    rm = getattr(spec, 'raw_meta', None)
     if spec.extra_payload:
+        op['extra_payload'] = [{'typ': str(t), 'value': bytes(int(sym.evaluate(b, mdl)) if isinstance(b, T) else b for b in v).hex()} for t, v in spec.extra_payload]
+    if rm is not None:
+        rec = {'typ': '16', 'value': bytes(int(sym.evaluate(b, mdl)) if isinstance(b, T) else b for b in rm).hex()}
+        pos = getattr(spec, 'raw_meta_pos', None)
+        lst = op.setdefault('extra_payload', [])
+        if pos is None:
+            lst.append(rec)
+        else:
+            lst.insert(pos, rec)
+    if False:
         op['extra_payload'] = [{'typ': str(t), 'value': bytes(v).hex()} for t, v in spec.extra_payload]
     return op
 
@@ -79,8 +90,17 @@ def script_from_state(m, sc, v, trail=None):
             elif mode == 'pending':
                 now_age = 0
                 at = sym.var('attempt_time0')
+                try:
+                    age = (int(sym.evaluate(env.clock, mdl)) // 1000000000) - int(mdl['attempt_time0']) if isinstance(env.clock, T) else int(cfg.get('native_pending_age_s', 0))
+                except Exception:
+                    age = int(cfg.get('native_pending_age_s', 0))
+                if age < 0:
+                    # whole-second granularity of the stored attempt time: exaggerate a future-dated attempt so that the
+                    # native demonstration does not depend on sub-second fractions
+                    age = min(age, -(int(config['mpp_timeout_s']) + 5)) if int(config['mpp_timeout_s']) < 10 ** 6 else age
+                age = max(-86400 * 365, min(age, 86400 * 365 * 30))
                 setup.append({'op': 'store', 'inv': inv0, 'state': 'pending', 'generation': gen0,
-                              'age_s': str(cfg.get('native_pending_age_s', 0)), 'attempt_record': cfg.get('pending_has_attempt_record', True)})
+                              'age_s': str(age), 'attempt_record': cfg.get('pending_has_attempt_record', True)})
                 for i in range(cfg.get('pending_parts', 1)):
                     stt = ('pending', 'complete', 'failed')[ch.get('old.part%d' % i, 0)]
                     setup.append({'op': 'old_part', 'inv': inv0, 'status': stt})
@@ -146,6 +166,10 @@ def script_from_state(m, sc, v, trail=None):
             continue
     for k in sorted(pending_delivery):
         steps.append(htlc_op(sc, specs[k], mdl))
+        steps.append({'op': 'settle'})
+    if v.kind in ('restart-grants-more-than-one-period', 'wrong-restart-timeout', 'wrong-timeout'):
+        # the counterexample ends when the timer is armed: probe natively one MPP period (+0.5 s) later
+        steps.append({'op': 'advance', 'ms': int(config['mpp_timeout_s']) * 1000 + 500})
         steps.append({'op': 'settle'})
     return {'config': config, 'invoices': invoices, 'setup': setup, 'steps': steps,
             'model': {k: str(x) for k, x in mdl.items() if '!' not in k}}
@@ -329,6 +353,11 @@ def j_foreign(v, script, nat):
     ops = _htlc_ops(script)
     for r in nat.get('responses', []):
         op = ops.get(r['k'])
+        if op and op.get('hash') != 'other' and r['response'].get('result') == 'resolve' and op.get('invoice') is not None:
+            ident = script['invoices'][op['invoice']]['ident']
+            want = bytes([(ident + 1) & 0xff] * 32).hex()
+            if r['response'].get('payment_key') != want:
+                return True, 'htlc %d settled with key %s which is not the preimage of its hash' % (r['k'], r['response'].get('payment_key'))
         if op and op.get('hash') == 'other' and r['response'].get('result') == 'resolve':
             return True, 'htlc %d (hash differs from the invoice) was resolved' % r['k']
     for e in _pay_events(nat):
@@ -407,7 +436,76 @@ def j_understates(v, script, nat):
         return True, 'final record %s while parts %s are live' % (fstate, final)
     return False, 'record never understated natively'
 
+def _bigsize(v):
+    if v < 0xfd:
+        return bytes([v])
+    if v <= 0xffff:
+        return b'\xfd' + v.to_bytes(2, 'big')
+    if v <= 0xffffffff:
+        return b'\xfe' + v.to_bytes(4, 'big')
+    return b'\xff' + v.to_bytes(8, 'big')
+
+def j_passthrough(v, script, nat):
+    ops = _htlc_ops(script)
+    r = _resp(nat, 0)
+    calls = [e for e in nat.get('trace', []) if e.get('event') == 'rpc' and e.get('method') != 'get_info']
+    if nat.get('task_panics') or nat.get('panics'):
+        return True, 'panic: %s' % (nat.get('task_panics') or nat.get('panics'))[:2]
+    if r is None:
+        return True, 'htlc not answered immediately (pending calls %s)' % nat.get('pending_calls')
+    if r.get('result') != 'continue':
+        return True, 'response is %s, not continue' % r
+    if calls:
+        return True, 'RPC calls were made for a non-trampoline htlc: %s' % [c['method'] for c in calls]
+    if 'payload' in r and r['payload'] is not None:
+        op = ops[0]
+        recs = [(int(e['typ']), bytes.fromhex(e['value'])) for e in op.get('extra_payload', [])]
+        # expected: every record except the first type-16 one (the invoice-based metadata record, if any, comes last
+        # natively and is itself a type-16 record)
+        out = []
+        removed = op.get('invoice') is not None and not any(t == 16 for t, _v in recs)
+        for t, val in recs:
+            if t == 16 and not removed:
+                removed = True
+                continue
+            out.append(_bigsize(t) + _bigsize(len(val)) + val)
+        exp = b''.join(out)
+        if not r['payload'].startswith(exp.hex()):
+            return True, 'rewritten payload %s does not preserve the other records %s' % (r['payload'], exp.hex())
+    return False, 'passed through natively: %s' % r
+
+def j_timeout(v, script, nat):
+    mpp_ms = int(script['config']['mpp_timeout_s']) * 1000
+    if _pay_events(nat):
+        return True, 'an outgoing payment was started for a set that never completed'
+    for e in nat.get('trace', []):
+        if e.get('event') == 'response':
+            r = e['response']
+            if r.get('result') != 'fail' or r.get('failure_message') != '2019':
+                return True, 'incomplete set answered with %s' % r
+            if v.kind in ('failed-before-timeout', 'wrong-timeout', 'timer-not-started-after-store-answer') and e['t_ms'] < mpp_ms:
+                return True, 'failed after %d ms, before the MPP timeout of %d ms' % (e['t_ms'], mpp_ms)
+            if e['t_ms'] > mpp_ms + 1000:
+                return True, 'failed after %d ms, more than one MPP timeout (%d ms)' % (e['t_ms'], mpp_ms)
+    if nat.get('still_waiting'):
+        total = sum(int(s.get('ms', 0)) for s in script['steps'] if s.get('op') == 'advance')
+        if total >= mpp_ms:
+            return True, 'still unanswered %d ms after the wait began (MPP timeout %d ms)' % (total, mpp_ms)
+    return False, 'timeout behaviour as expected natively'
+
 JUDGES = {
+    'pay-for-incomplete-set': j_timeout,
+    'wrong-timeout': j_timeout,
+    'timer-not-started-after-store-answer': j_timeout,
+    'restart-grants-more-than-one-period': j_timeout,
+    'wrong-restart-timeout': j_timeout,
+    'failed-before-timeout': j_timeout,
+    'wrong-response-for-incomplete-set': j_timeout,
+    'side-effect': j_passthrough,
+    'not-continue': j_passthrough,
+    'state-retained': j_passthrough,
+    'waited-on-external-event': j_passthrough,
+    'payload-rewritten-wrongly': j_passthrough,
     'pay-with-conflicting-info': j_pay_conflict,
     'pay-after-rejection': j_pay_after_rejection,
     'different-resolutions': j_different,
